@@ -452,10 +452,10 @@ def judgeExtra2 (hNew hOld : HCtx) (op res : Array String) (dump : Option St) : 
                  (if wellConditioned s fsx 12 then chk (weightsNumericOK s q ws k) "C19" "weights-numerically-wrong" feat else []))
     | _, _ => (hNew, [⟨"INTERNAL", "protocol", s!"{name}: {res.toList}"⟩])
   | "ins" | "insh" =>
-    -- R3: the insertion model (DCEL operations + locate + legalisation) must reproduce the
-    -- implementation's arrays index for index (plain Delaunay triangulations, integer families;
+    -- R3: the insertion model (DCEL operations + locate + legalisation, constraint flags of a
+    -- CDT included) must reproduce the implementation's arrays index for index (integer families;
     -- without an explicit hint only where the hint is not used: < 2 vertices or collinear)
-    if hOld.kind == "dt" && exactFam hOld.fam && r0 == "ok" then
+    if exactFam hOld.fam && r0 == "ok" then
       match parsePt (op.getD 1 "") (op.getD 2 ""), parseNat (op.getD 3 ""), dump with
       | some p, some dat, some d =>
         let hint? : Option Nat := if name == "insh" then parseNat (op.getD 4 "")
